@@ -22,6 +22,9 @@ EXPLANATION = (
 EXPLANATION += (
     " " + 'R2 also: phased_snvs sums count_snvs() over self.blocks with the same size filter as block_sizes (not over the split pieces) and is wired to DetailedStats.phased_snvs; R4 also: no function of stats.py uses a block / phase-set id as a bare condition (phase set 0 exists).'
 )
+EXPLANATION += (
+    " " + 'R5 also: PhasedBlock.split fills the left piece only under position < split_left and the right piece only under position > split_right, on every path of its loop.'
+)
 NOT_DECIDED = "The non-overlapping split of interleaved blocks and NG50 arithmetic (value-level)."
 ASSUMPTIONS = ["Genotype::is_homozygous() returns false for the missing genotype (src/genotype.cpp, checked by C12.R1's C++ probe)"]
 
@@ -463,27 +466,38 @@ def r5_split(ctx):
     ps_ = util.params_of(sp.node)
     lo, hi = ps_[1], ps_[2]
     rets = [n for n in walk_function(sp.node) if isinstance(n, ast.Return) and isinstance(n.value, ast.Tuple) and len(n.value.elts) == 2]
-    adds = [c for c in ctx.prog.calls_in(sp.node) if isinstance(c.func, ast.Attribute) and c.func.attr == "add" and len(c.args) == 2]
-    if len(rets) != 1 or len(adds) != 2:
+    loops = [n for n in walk_function(sp.node) if isinstance(n, ast.For)]
+    if len(rets) != 1 or len(loops) != 1:
         ctx.ob(sp.qual, "split-pieces-clear-of-the-cutting-span", None, sp.loc(), "cannot read how split() fills its two pieces")
         return
     left, right = u(rets[0].value.elts[0]), u(rets[0].value.elts[1])
-    ok, why = True, ""
-    for c in adds:
-        ga = guard_atoms(cfg, cfg.node_containing(c))
-        pos = "%s.position" % u(c.args[0])
-        if u(c.func.value) == left:
-            good = ("%s < %s" % (pos, lo), True) in ga
-            if not good:
-                ok, why = False, "the left piece is not filled under `%s < %s` (%s)" % (pos, lo, sorted(t for t, p_ in ga if p_ and pos in t))
-        elif u(c.func.value) == right:
-            good = ("%s < %s" % (hi, pos), True) in ga
-            if not good:
-                ok, why = False, "the right piece is not filled under `%s > %s` (%s)" % (pos, hi, sorted(t for t, p_ in ga if p_ and pos in t))
-        else:
-            ok, why = None, "a piece other than the two returned ones is filled"
-    ctx.ob(sp.qual, "split-pieces-clear-of-the-cutting-span", ok, sp.loc(), "left piece: position < %s, right piece: position > %s" % (lo, hi) if ok else why + ": a piece of a cut phase set reaches into the set that cuts it, so the `non-overlapping` blocks overlap and the bp-per-block statistics are inflated")
+    from sa import pathfx
 
+    try:
+        sums = pathfx.iteration_summaries(cfg, loops[0])
+    except OverflowError:
+        sums = []
+    tg = loops[0].target
+    var = u(tg.elts[0]) if isinstance(tg, ast.Tuple) and tg.elts else u(tg)
+    pos = "%s.position" % var
+    ok, why, seen = (True if sums else None), "cannot enumerate the paths of one iteration", set()
+    for ps in sums:
+        adds = [e_[1] for e_ in ps.effects if e_[0] == "call" and isinstance(e_[1].func, ast.Attribute) and e_[1].func.attr == "add" and len(e_[1].args) == 2]
+        is_left, is_right = ps.has("%s < %s" % (pos, lo), True), ps.has("%s < %s" % (hi, pos), True)
+        for c in adds:
+            r_ = u(c.func.value)
+            seen.add(r_)
+            if r_ == left and not is_left:
+                ok, why = False, "the left piece receives a variant without `%s < %s` having been established (%s)" % (pos, lo, sorted(t for t, p_ in ps.atoms if p_ and pos in t))
+            elif r_ == right and not is_right:
+                ok, why = False, "the right piece receives a variant without `%s > %s` having been established (%s)" % (pos, hi, sorted(t for t, p_ in ps.atoms if p_ and pos in t))
+            elif r_ not in (left, right) and ok:
+                ok, why = None, "a piece other than the two returned ones is filled (%s)" % r_
+        if ok and ((is_left and not any(u(c.func.value) == left for c in adds)) or (is_right and not any(u(c.func.value) == right for c in adds))):
+            ok, why = False, "a variant left of %s / right of %s is not put into its piece" % (lo, hi)
+    if ok and seen != {left, right}:
+        ok, why = None, "cannot read how split() fills its two pieces"
+    ctx.ob(sp.qual, "split-pieces-clear-of-the-cutting-span", ok, sp.loc(), "left piece: position < %s, right piece: position > %s" % (lo, hi) if ok else why + ("" if ok is None else ": a piece of a cut phase set reaches into the set that cuts it, so the `non-overlapping` blocks overlap and the bp-per-block statistics are inflated"))
 
 RULES = [
     ("C12.R1", "none-before-hom: missing genotype excluded before the hom/het split", r1),
